@@ -70,6 +70,29 @@ Theorem C19_decomposed_equal_weights_agree : forall c l, ~ c == 0 -> ~ wtot l ==
 Proof. exact mn_epi_today_equal_weights. Qed.
 Print Assumptions C19_decomposed_equal_weights_agree.
 
+(* F80: loc and scale of a member given with different masks.  Repaired: the member is masked where either is
+   ([mn_union]), so C19_mixture_variance / C19_masked_ignored apply as they are.  Pinned tree: refuted ... *)
+Theorem C19_partial_mask_refuted :
+  exists l, ~ mn2_total_today l == mn2_ale_today l + mn2_epi_today l
+            /\ mn2_total_today l == 1 # 2 /\ mn2_ale_today l == 5 # 8 /\ mn2_epi_today l == 1 # 4
+            /\ mn_total (mn_union l) == 1 # 2 /\ mn_ale (mn_union l) == 1 # 4 /\ mn_epi (mn_union l) == 1 # 4.
+Proof. exact partial_mask_refuted. Qed.
+Print Assumptions C19_partial_mask_refuted.
+
+(* ... and harmless when the two masks agree (every existing test, every OnlineSelector-built input) *)
+Theorem C19_partial_mask_agree : forall l, masks_agree l -> ~ wtot (mn_union l) == 0 ->
+  mn2_loc_today l == mn_loc (mn_union l) /\ mn2_ale_today l == mn_ale (mn_union l)
+  /\ mn2_epi_today l == mn_epi (mn_union l) /\ mn2_total_today l == mn_total (mn_union l).
+Proof. exact partial_mask_agree. Qed.
+Print Assumptions C19_partial_mask_agree.
+
+(* F81: integer-typed scale arrays are squared in int64 by the pinned tree *)
+Theorem C19_int64_scale_refuted :
+  exists l, mn_ale_int64 l < 0 /\ mn_ale l == 9610000000000000000 # 1
+            /\ (forall w a, In (w, Some a) l -> snd a == inject_Z (Qnum (snd a))).
+Proof. exact int64_scale_refuted. Qed.
+Print Assumptions C19_int64_scale_refuted.
+
 (* ---- aggregated class probabilities form a distribution if every member's do ---- *)
 Theorem C19_probs_distribution : forall K l, wnonneg l -> 0 < wtot l ->
   (forall p, unmasked_in p l -> row_ok 1 K p) -> row_ok 1 K (cat_loc K l).
